@@ -8,20 +8,27 @@ Open Scope N_scope.
 Inductive case :=
   (* parsed (good) prefixes of the configured list; probes with ipset.Contains result *)
 | CaseSet (ps : list prefix) (probes : list (addr * bool))
-  (* access list through the real handler: outcome 0 = Next called and nothing written,
+  (* responseWriter.Reset through Chain.Reset / Chain.ResetWire on a transport reporting this
+     remote: what the chain's writer then says for Internal() and RemoteIP() *)
+| CaseWriter (r : remote) (internal : bool) (remote_ip : option addr)
+  (* the writer Queryer.Query really installs for a sub-query, as a handler of the sub-pipeline
+     sees it: the transport's remote and the chain writer's Internal() *)
+| CaseSubquery (r : remote) (internal : bool)
+  (* access list through the real handler, the chain's writer bound to a transport reporting
+     this remote: outcome 0 = Next called and nothing written,
      1 = cancelled: Next not called and nothing written, anything else = something else *)
-| CaseAcl (n_entries : N) (ps : list prefix) (internal : bool) (src : option addr) (outcome : N)
+| CaseAcl (n_entries : N) (ps : list prefix) (r : remote) (outcome : N)
   (* views: per view its prefixes; which view index answered (None: fell through) *)
-| CaseView (views : list (list prefix * bool)) (internal : bool) (src : addr) (answered : option nat)
+| CaseView (views : list (list prefix * bool)) (r : remote) (answered : option nat)
   (* SubPipeline(skip...) on a pipeline with these handler names: resulting names *)
 | CaseSub (handlers skip result : list (list N))
   (* the real default chain (everything ahead of the resolver) with a counting stand-in for
      the resolver: path 0 = wire fast path, 1 = decoded UDP, 2 = decoded TCP; the queried
      name was / was not already cached; did the client get a reply; resolver invocations *)
-| CaseChain (n_entries : N) (ps : list prefix) (src : addr) (path : N) (cached replied : bool) (resolver_calls : N)
+| CaseChain (n_entries : N) (ps : list prefix) (r : remote) (path : N) (cached replied : bool) (resolver_calls : N)
   (* a burst of n high-amplification queries from one source through the same chain: was any
      of them answered; resolver invocations over the burst *)
-| CaseChainBurst (n_entries : N) (ps : list prefix) (src : addr) (n : N) (any_reply : bool) (resolver_calls : N).
+| CaseChainBurst (n_entries : N) (ps : list prefix) (r : remote) (n : N) (any_reply : bool) (resolver_calls : N).
 
 Definition all_ok (ps : list prefix) : bool := forallb prefix_ok ps.
 
@@ -31,6 +38,45 @@ Definition opt_nat_eqb (a b : option nat) : bool :=
   | Some x, Some y => (x =? y)%nat
   | _, _ => false
   end.
+Definition addr_eqb (a b : addr) : bool := Bool.eqb (a_is4 a) (a_is4 b) && (a_val a =? a_val b).
+Definition opt_addr_eqb (a b : option addr) : bool :=
+  match a, b with
+  | None, None => true
+  | Some x, Some y => addr_eqb x y
+  | _, _ => false
+  end.
+Definition kind_eqb (a b : addr_kind) : bool :=
+  match a, b with KUdp, KUdp | KTcp, KTcp | KOther, KOther => true | _, _ => false end.
+Definition opt_bool_eqb (a b : option bool) : bool :=
+  match a, b with
+  | None, None => true
+  | Some x, Some y => Bool.eqb x y
+  | _, _ => false
+  end.
+Definition remote_eqb (a b : remote) : bool :=
+  kind_eqb (r_kind a) (r_kind b) && opt_addr_eqb (r_ip a) (r_ip b) && (r_port a =? r_port b)%Z &&
+  opt_bool_eqb (r_says a) (r_says b).
+
+(* -------- specification of "resolver-internal sub-query", written without the model and without
+   the constants read from the source: the transport itself declares the request internal, or it
+   carries the sub-query pipeline's signature — a stream/datagram peer 127.0.0.255 (plain or
+   IPv4-mapped) with port 0, which no client socket has.  Everything else is a client and its
+   address is the peer address the transport reports (none for a foreign address type). *)
+Definition spec_subquery (r : remote) : bool :=
+  match r_says r with
+  | Some true => true
+  | _ =>
+      match r_kind r, r_ip r with
+      | KOther, _ => false
+      | _, None => false
+      | _, Some a => (r_port r =? 0)%Z && a_is4 (unmap a) && (a_val (unmap a) =? 2130706687)
+      end
+  end.
+Definition spec_client_ip (r : remote) : option addr :=
+  match r_kind r with KOther => None | _ => r_ip r end.
+Definition spec_allowed (ps : list prefix) (r : remote) : bool :=
+  spec_subquery r || match spec_client_ip r with Some a => spec_contains ps a | None => false end.
+
 Fixpoint names_eqb (a b : list (list N)) : bool :=
   match a, b with
   | [], [] => true
@@ -48,25 +94,27 @@ Definition check_case (c : case) : bool :=
   match c with
   | CaseSet ps probes =>
       all_ok ps && let s := new_set ps in forallb (fun pr => Bool.eqb (set_contains s (fst pr)) (snd pr)) probes
-  | CaseAcl ne ps internal src outcome =>
-      all_ok ps && match acl_serve (new_set (acl_effective ne ps)) internal src with AclNext => outcome =? 0 | AclDrop => outcome =? 1 end
-  | CaseView views internal src answered =>
+  | CaseWriter r internal rip =>
+      Bool.eqb (writer_internal r) internal && opt_addr_eqb (writer_remote_ip r) rip
+  | CaseSubquery r internal => remote_eqb r subquery_remote && Bool.eqb (writer_internal r) internal
+  | CaseAcl ne ps r outcome =>
+      all_ok ps && match acl_serve_remote (new_set (acl_effective ne ps)) r with AclNext => outcome =? 0 | AclDrop => outcome =? 1 end
+  | CaseView views r answered =>
       forallb (fun v => all_ok (fst v)) views &&
-      opt_nat_eqb (if internal then None else
-                   match first_view (map (fun v => new_set (fst v)) views) src 0 with
-                   | Some i => if snd (nth i views ([], false)) then Some i else None
-                   | None => None
-                   end) answered
+      opt_nat_eqb (view_serve_remote (map (fun v => (new_set (fst v), snd v)) views) r) answered
   | CaseSub handlers skip result => names_eqb (sub_pipeline handlers skip) result
-  | CaseChain ne ps src path cached replied calls =>
+  | CaseChain ne ps r path cached replied calls =>
       all_ok ps &&
-      match acl_serve (new_set (acl_effective ne ps)) false (Some src) with
-      | AclNext => replied && (calls =? (if cached then 0 else 1))
+      match acl_serve_remote (new_set (acl_effective ne ps)) r with
+      (* a client that passes is answered: from the cache without resolution when the name is
+         cached, else by exactly one resolution (what the cache does with a request flagged
+         internal is not this property's business: only that it is let through) *)
+      | AclNext => replied && (writer_internal r || (calls =? (if cached then 0 else 1)))
       | AclDrop => negb replied && (calls =? 0)
       end
-  | CaseChainBurst ne ps src n any_reply calls =>
+  | CaseChainBurst ne ps r n any_reply calls =>
       all_ok ps &&
-      match acl_serve (new_set (acl_effective ne ps)) false (Some src) with
+      match acl_serve_remote (new_set (acl_effective ne ps)) r with
       | AclNext => true
       | AclDrop => negb any_reply && (calls =? 0)
       end
@@ -75,21 +123,25 @@ Definition check_case (c : case) : bool :=
 Definition spec_case (c : case) : bool :=
   match c with
   | CaseSet ps probes => forallb (fun pr => Bool.eqb (spec_contains ps (fst pr)) (snd pr)) probes
-  | CaseAcl ne ps internal src outcome =>
-      let allowed := internal || match src with Some a => spec_contains (acl_effective ne ps) a | None => false end in
-      if allowed then outcome =? 0 else outcome =? 1
-  | CaseView views internal src answered =>
+  | CaseWriter r internal rip =>
+      (* client policy is skipped for genuine sub-queries ONLY: on every transport address type *)
+      Bool.eqb (spec_subquery r) internal && opt_addr_eqb (spec_client_ip r) rip
+  | CaseSubquery r internal => internal && spec_subquery r
+  | CaseAcl ne ps r outcome =>
+      if spec_allowed (acl_effective ne ps) r then outcome =? 0 else outcome =? 1
+  | CaseView views r answered =>
       (* the first view (declaration order) whose networks contain the client decides:
          it answers if it has a record for the question, otherwise the query falls
          through; internal requests skip views *)
-      opt_nat_eqb (if internal then None else spec_first_view views src 0) answered
+      opt_nat_eqb (if spec_subquery r then None else
+                   match spec_client_ip r with Some a => spec_first_view views a 0 | None => None end) answered
   | CaseSub handlers skip result =>
       forallb (fun h => negb (mem_name h skip)) result &&
       names_eqb (filter (fun h => negb (mem_name h skip)) handlers) result
-  | CaseChain ne ps src path cached replied calls =>
+  | CaseChain ne ps r path cached replied calls =>
       (* outside the list: no reply and no resolution, on every path, cached or not;
-         inside: a reply *)
-      if spec_contains (acl_effective ne ps) src then replied else negb replied && (calls =? 0)
-  | CaseChainBurst ne ps src n any_reply calls =>
-      if spec_contains (acl_effective ne ps) src then true else negb any_reply && (calls =? 0)
+         inside (or a genuine sub-query): a reply *)
+      if spec_allowed (acl_effective ne ps) r then replied else negb replied && (calls =? 0)
+  | CaseChainBurst ne ps r n any_reply calls =>
+      if spec_allowed (acl_effective ne ps) r then true else negb any_reply && (calls =? 0)
   end.
